@@ -377,7 +377,9 @@ fn expected_probes(prop: Prop) -> &'static [&'static str] {
 }
 
 fn write_evidence(prop: Prop, tier: Tier, base_seed: u64, cfg: &PropCfg, out: &BatchOut, violations: u64) {
-    let dir = format!("{}/evidence", verif_dir());
+    // The seeded-defect tools (tools/*.sh) run the checks on a deliberately broken /repo; they point
+    // this elsewhere so that such a run can never replace the evidence of the unchanged tree.
+    let dir = std::env::var("VERIF_EVIDENCE_DIR").unwrap_or_else(|_| format!("{}/evidence", verif_dir()));
     let _ = std::fs::create_dir_all(&dir);
     let rph = if out.wall_s > 0.0 {
         out.evaluations as f64 / out.wall_s * 3600.0
